@@ -37,7 +37,7 @@ def rand_any_gate(rng, n, us, bad=False):
     return {"g": "evo", "term": t, "dt": float2bits(rng.uniform(-1.5, 1.5))}
 
 def targets_of(d):
-    if d["g"] == "op": return list(d["ts"]), list(d["cs"])
+    if d["g"] in ("op", "param"): return list(d["ts"]), list(d["cs"])
     if d["g"] == "meas": return list(d["qs"]), []
     return sorted(q for q, _ in d["term"]["ops"]), []
 
